@@ -33,7 +33,7 @@ def tau(name, dname, desc=None, J=None):
                 # relative error e in v becomes e |v|_1 / |sum v| in the weights.  Calibrated on the unchanged tree (float32,
                 # kappa 151, amplification 382: error 0.031 eps kappa amp in units of s |w|_1): 0.3 eps kappa amp
                 G = J @ J.T
-                v = np.linalg.pinv(G, rcond=1e-10) @ np.linalg.norm(J, axis=1)
+                v = np.linalg.pinv(G, rcond=1e-12) @ np.linalg.norm(J, axis=1)
                 if abs(v.sum()) > 0:
                     t = max(t, 0.3 * EPS[dname] * k * float(np.abs(v).sum() / abs(v.sum())))
     return t
@@ -42,6 +42,7 @@ def tau(name, dname, desc=None, J=None):
 def kappa(name, J) -> float:
     if name == "IMTLG":
         sv = M.singular_values(J @ J.T)
+        sv = sv[sv > 1e-12 * sv[0]] if sv.size and sv[0] > 0 else sv  # conditioning of the part pinv keeps (exact rank deficiency: judged in float64)
     else:
         U = M.unit_rows(J)
         U = U[np.linalg.norm(U, axis=1) > 0]  # (an all-zero row is its own unit row: an exact zero singular value, nothing ambiguous)
@@ -132,14 +133,23 @@ def guard(desc, J: np.ndarray, dname: str, orders=None):
         # g_w_norm threshold of the implementation (on the normalised Gramian)
         return None
     if name == "IMTLG":
-        # pinv(J J^T) cuts singular values at max(m, n) eps sigma_1 (1e-15 in float64): a Gramian that is singular or nearly so
-        # (dependent or nearly dependent rows, m > n) has computed singular values within a small factor of that cut-off, so the
-        # numerical rank is ambiguous.  Judged: every singular value >= sigma_1 / COND_MAX (or the zero matrix, handled above).
+        # pinv(J J^T) cuts the singular values of the m x m Gramian at m eps sigma_1.  Judged: every singular value is either
+        # clearly kept (> 8 x the cut-off, and the kept ones within COND_MAX of each other) or clearly cut (< 1/8 of it).  An
+        # EXACTLY rank-deficient Gramian (dependent rows, m > n) has computed null singular values of 0.04 (median) .. 0.33 (max) of
+        # the cut-off (measured, 400 random products of factors): below cut / 8 the unchanged float64 code is stable under row
+        # permutations (spread <= 6e-10 s); in float32 it is not (spread up to 0.04 s), so float32 rank deficiency is not judged.
         svG = M.singular_values(G)
-        if svG[-1] < svG[0] / COND_MAX[dname]:
+        cut = m * EPS[dname] * svG[0]
+        kept, dropped = svG > 8 * cut, svG < cut / 8
+        if not (kept | dropped).all():
+            return "imtlg_rank_ambiguous"
+        if dropped.any() and dname == "float32":
+            return "imtlg_rank_deficient_float32"
+        pos = svG[kept]
+        if pos[-1] < pos[0] / COND_MAX[dname]:
             return "imtlg_rank_ambiguous"
         d = np.linalg.norm(J, axis=1)
-        v = np.linalg.pinv(G, rcond=1e-10) @ d
+        v = np.linalg.pinv(G, rcond=float(cut / svG[0])) @ d
         if abs(v.sum()) < 1e-3 * np.abs(v).sum():
             return "imtlg_weight_sum_near_zero"
         return None
@@ -175,38 +185,46 @@ def guard(desc, J: np.ndarray, dname: str, orders=None):
             return "mgda_argmin_tie"
         return None
     if name == "PCGrad":
-        lim = {"float64": 1e-9, "float32": 1e-3}[dname] * s ** 2
+        # Every sign decision "does the running vector conflict with row j" must be clear of rounding: the implementation reads
+        # the inner product off the Gramian as sum_k G_jk w_k, so its rounding scale is eps x sum_k |G_jk w_k| (cancellation), and
+        # a transformed matrix perturbs it by eps |g| |J_j|.  The threshold is RELATIVE TO THE PAIR (it was relative to s^2, which
+        # set every conflict between rows much smaller than the largest one aside).
+        rel = {"float64": 1e-9, "float32": 1e-3}[dname]
+        rn = np.linalg.norm(J, axis=1)
+
+        def walk(i, order):
+            w = np.zeros(m)
+            w[i] = 1.0
+            for j in order:
+                if j == i:
+                    continue
+                ip = float(G[j] @ w)
+                mag = max(float(np.abs(G[j]) @ np.abs(w)), float(np.linalg.norm(J.T @ w)) * rn[j])
+                if abs(ip) < rel * mag or mag == 0.0:
+                    return "pcgrad_inner_product_near_zero"
+                if ip < 0:
+                    if G[j, j] < 1e-24 * s ** 2:
+                        return "pcgrad_tiny_row"
+                    w[j] -= ip / G[j, j]
+            return None
+
         if orders is None:
             # draws not observable (permutations drawn through another torch entry point): recorder-free guard over ALL orders
-            if (G >= lim).all():
+            if (G >= rel * np.outer(rn, rn)).all() and (rn > 0).all():
                 return None
             if m > 4:
                 return "pcgrad_orders_unknown"
             import itertools
             for i in range(m):
                 for perm in itertools.permutations([j for j in range(m) if j != i]):
-                    g = J[i].copy()
-                    for j in perm:
-                        ip = g @ J[j]
-                        if abs(ip) < lim:
-                            return "pcgrad_inner_product_near_zero"
-                        if ip < 0:
-                            if J[j] @ J[j] < 1e-12 * s ** 2:
-                                return "pcgrad_tiny_row"
-                            g = g - ip / (J[j] @ J[j]) * J[j]
+                    r = walk(i, perm)
+                    if r:
+                        return r
             return None
         for i in range(m):
-            g = J[i].copy()
-            for j in orders[i]:
-                if j == i:
-                    continue
-                ip = g @ J[j]
-                if abs(ip) < lim:
-                    return "pcgrad_inner_product_near_zero"
-                if ip < 0:
-                    if J[j] @ J[j] < 1e-12 * s ** 2:
-                        return "pcgrad_tiny_row"
-                    g = g - ip / (J[j] @ J[j]) * J[j]
+            r = walk(i, orders[i])
+            if r:
+                return r
         return None
     if name == "GradDrop":
         return None  # decided on the recorded draws by the caller (|f(P) - U| margin)
